@@ -1,0 +1,10 @@
+//go:build !verif
+
+package vm
+
+// Verification hooks (C15/C16): empty inlinable stubs in the normal build.
+// The recording versions live in verif_events_on.go (build tag `verif`).
+
+func verifEvent(kind string, promise, task *Promise) {}
+
+func verifYield() {}
